@@ -87,6 +87,25 @@ theorem parseNode_standard_child (e : BEnv) (Γ : Ctx) (cfg : ParserConfig) (var
       = .error (.context "StandardNode node doesn't support child nodes!") := by
   simp [parseNode]
 
+/-! ### fields without a namespace list -/
+
+/-- a wildcard / any-attribute field without a namespace
+list (`XmlVar.namespaces == ()`: no `namespace` metadata, and for a Wildcard field a class
+without namespace) matches exactly the names that have no namespace. -/
+theorem matchNamespace_nil (q : QN) : matchNamespace [] q = (targetUri q).isNone := by
+  simp only [matchNamespace, List.isEmpty_nil, Bool.true_and, List.any_nil]
+  cases targetUri q <;> simp
+
+theorem findByNamespace_bare {vars : List XmlVar} {q : QN}
+    (hb : vars.all (·.namespaces.isEmpty) = true) (hq : (targetUri q).isSome = true) :
+    findByNamespace vars q = none := by
+  unfold findByNamespace
+  rw [List.find?_eq_none]
+  intro v hv
+  have : v.namespaces = [] := by simpa using List.all_eq_true.mp hb v hv
+  have hn : (targetUri q).isNone = false := by cases h : targetUri q <;> simp_all
+  simp [this, matchNamespace_nil, hn]
+
 /-! ### vocabulary of the statements -/
 
 /-- the node `ElementNode.child` created is a `PrimitiveNode` or a `StandardNode` -/
@@ -360,6 +379,16 @@ def ctxV : Ctx :=
   { classes := [{ id := ['V'], metas := [(none, metaV)], mro := [['V']], bases := [],
                   fields := [⟨['v'], true, some (.list [])⟩] }],
     xsiIndex := [(['V'], [['V']])], datatypes := [] }
+
+/-- `B(rest: list[object] Wildcard, extra: Attributes)`, neither field with namespace metadata, class without namespace -/
+def varBare (k : VarKind) (nm : Str) : XmlVar :=
+  mkVar { baseVar with
+    name := nm, localName := nm, qname := nm, types := [.obj], kind := k, namespaces := [], listElement := true }
+
+def metaB : XmlMeta :=
+  { clazz := ['B'], qname := ['B'], targetQName := some ['B'], nillable := false, text := none, choices := [],
+    elements := [], wildcards := [varBare .wildcard ['r']], attributes := [], anyAttributes := [varBare .attributes ['x']],
+    wrappers := [] }
 
 end Ex
 
